@@ -3,6 +3,7 @@ package streams
 import (
 	"fmt"
 	"github.com/bokysan/socketace/v2/internal/util/buffers"
+	"github.com/bokysan/socketace/v2/internal/verifhook"
 	"github.com/pkg/errors"
 	log "github.com/sirupsen/logrus"
 	"io"
@@ -103,8 +104,12 @@ func PipeData(down io.ReadWriteCloser, up io.ReadWriteCloser) error {
 		go pipeData(upPipe, up, down)
 	}
 
+	verifhook.Emit("pipe.start")
+	defer verifhook.Emit("pipe.end")
+
 	select {
 	case err := <-downPipe:
+		verifhook.At("pipe.beforeCloseUp")
 		log.Debugf("Closing piped upstream connection due to '%v': %+v", err, up)
 		TryClose(up)
 		if err != io.EOF {
@@ -113,6 +118,7 @@ func PipeData(down io.ReadWriteCloser, up io.ReadWriteCloser) error {
 			return err
 		}
 	case err := <-upPipe:
+		verifhook.At("pipe.beforeCloseDown")
 		log.Debugf("Closing piped downstream connection due to '%v': %+v", err, down)
 		TryClose(down)
 		if err != io.EOF {
